@@ -1,13 +1,9 @@
+import json, os, glob
 HOOK_COMMITS = ["ead84d4"]
 NOTES = ("Lean 4 proof + checked correspondence; see DESIGN.md. Properties not yet claimed are listed under "
-         "not_applicable with the reason 'not yet built' until their check exists.")
-_NB = "check not built yet in this session (planned, see DESIGN.md section 6); not claimed until it exists"
+         "not_applicable until their check exists.")
+_NB = "check not built yet (planned, see DESIGN.md section 6); not claimed until it exists"
 NOT_CLAIMED = {f"C{n:02d}": _NB for n in range(1, 21)}
-CLAIMS = {
-    "C18": {
-        "text": "Lean theorems over every clock sequence (unbounded length, repeats, backward steps, bursts): ids of one generator lifetime strictly increase, are unique, carry the shard tag, never collide across shards; across a restart proved under 'new clock later than old' with a proved counterexample otherwise. Model tied to event_id.rs by generated constants and an exact differential stream under a scripted clock.",
-        "design_ref": "6.18",
-        "note": "Trusted: Lean kernel; the hand model of EventIdGenerator::next (validated by equality of id sequences on generated clock scripts); the clock hook. Restart clause is partial (generator state not persisted).",
-        "technique": "Lean 4 proof (induction over generator steps) + differential correspondence against EventIdGenerator under a scripted clock",
-    },
-}
+CLAIMS = {}
+for _p in sorted(glob.glob(os.path.join(os.path.dirname(os.path.abspath(__file__)), "claims", "C*.json"))):
+    CLAIMS[os.path.basename(_p)[:-5]] = json.load(open(_p))
